@@ -28,7 +28,7 @@ import warnings  # noqa: E402
 warnings.simplefilter('ignore')
 import logging  # noqa: E402
 
-logging.disable(logging.WARNING)
+logging.disable(logging.CRITICAL)
 
 from lib import core  # noqa: E402
 
